@@ -414,7 +414,9 @@ def observe_raw(world, path_info, qs, flow='wms', extra_headers=None):
     if resp.status_int == 200 and ct.startswith('image/'):
         o.out = 'served'
     elif flow == 'multiapp':
-        if resp.status_int == 404 and body == b'not found':
+        if 'mapproxy.instance_name' in resp.request.environ:
+            o.out = 'dispatch'          # MultiMapProxy.handle handed the request to a project application
+        elif resp.status_int == 404 and body == b'not found':
             o.out = 'notfound'
         elif body.startswith(b'<html><body><h1>Welcome to MapProxy'):
             o.out = 'index'
@@ -540,7 +542,7 @@ def class_of(model_out):
 # --------------------------------------------------------------------------------------------------------
 # TLC: exhaustive model, location tables
 # --------------------------------------------------------------------------------------------------------
-MC_KEYS = [['time'], ['elevation'], ['dim_a'], ['dim_', '..', 'x'], ['foo']]
+MC_KEYS = [['time'], ['elevation'], ['dim_a'], ['dim_', '..', '..', 'x'], ['foo']]
 MC_TOK = ['', '.', '..', 'a', 'v1', 'cc']
 ACTIONS = ['Receive', 'DoPopPath', 'DoLayerLookup', 'DoDimsWMS', 'DoDimsChecked', 'DoCoordWMS', 'DoLimitTile', 'Lock', 'Store']
 ALL_FLOWS = ['wms', 'tms', 'kml', 'wmts_kvp', 'wmts_rest', 'multiapp']
@@ -1184,8 +1186,13 @@ def robustness(ctx, kinds):
     n = 0
     for kind in kinds:
         world = World(ctx, kind, levels=3, meta=1, name='rob-' + kind.name)
+        decoy_tile = world.base + '/data/decoy/00/000/000/000/000/000/000.png'
+        extra = [('demo', '/demo/static/' + '../' * 60 + decoy_tile.lstrip('/'), ''),
+                 ('demo', '/demo/static//' + decoy_tile.lstrip('/'), ''),
+                 ('demo', '/demo/static/' + decoy_tile, ''),
+                 ('demo', '/demo/static/..%2f..%2f' + decoy_tile, '')]
         try:
-            for i, (flow, pi, qs) in enumerate(cases):
+            for i, (flow, pi, qs) in enumerate(cases + extra):
                 if not kind.dims:
                     pi = pi.replace('/g/v1/', '/g/')
                 try:
@@ -1214,6 +1221,8 @@ def robustness(ctx, kinds):
 
 # --------------------------------------------------------------------------------------------------------
 def run(ctx):
+    import logging
+    logging.disable(logging.CRITICAL)        # the application logs a traceback for every refused spelling
     thorough = ctx.tier == 'thorough'
     tlc.sany(SPEC)
     kinds = all_kinds()
